@@ -13,7 +13,8 @@ def run_lines(lines, tag):
     rc, out = common.sh("ulimit -v 8000000; timeout 1800 %s api %s > %s" % (common.GVRUN, cf, io_))
     if rc == 3:
         hung = open(io_).read().splitlines()[-1].split(" ", 1)[0]
-        raise Broken("a register-API call does not return within 20 s (hang)", [l for l in lines if l.startswith(hung + " ")][0])
+        raise common.Hang("a register-API call does not return within 20 s (hang); in the model every call of this history returns",
+                          [l for l in lines if l.startswith(hung + " ")][0])
     if rc != 0:
         raise Broken("gvrun api failed (rc=%d)" % rc, out[-2000:])
     rc, jout = common.sh("timeout 3000 %s api %s %s" % (common.GVMODEL, cf, io_))
